@@ -26,7 +26,7 @@ LEVEL_TEXT = ('Generated-history search: 640 histories of up to 14 operations (q
               'recompute_edges). The whole history shrinks as one value and is the replay file. Sampling, not exhaustive.')
 RULE = ('Hypothesis: list of operations drawn from {construct(settings incl. shorthand names, None thresholds), fit(signal k), '
         'recompute_edges(r in {None, 0, .05, .1, .3}), load(table of another fit), set_threshold(key, v), set_burst_option(key, v), '
-        'switch_method(m, thresholds), switch_center, read_attribute(column | bogus)}; model = deep-copied record of the current settings. '
+        'switch_method(m, thresholds), switch_center, read_attribute(column | bogus), clone(deepcopy | pickle round trip)}; model = deep-copied record of the current settings. '
         'Invariants: after fit, df_features is bit-equal to compute_features(sig, fs, band, **fresh copies of the model) and to the table '
         'of a freshly constructed object (or all three raise the same exception type); after recompute_edges(r), df_features equals the '
         'functional recompute_edges(previous table, thresholds with every *_threshold lowered by r) or both raise ValueError; attribute '
@@ -203,6 +203,24 @@ def check(case, rec):
             if obj.df_features is not res[1]:
                 raise Violation('load', tag)
             event_since_fit = True
+        elif kind == 'clone':
+            # the object is copied (copy.deepcopy / pickle round trip, e.g. to ship it to a worker or keep a checkpoint) and the
+            # copy carries on: it must hold the same table and behave like the original for everything that follows
+            import copy as _copy
+            import pickle as _pickle
+            res = outcome(lambda: _copy.deepcopy(obj) if op[1] % 2 == 0 else _pickle.loads(_pickle.dumps(obj)))
+            if res[0] != 'ok':
+                raise Violation('clone-raises', '%s: %s %s (history %s)' % (tag, res[0], res[1], history))
+            new_obj = res[1]
+            if (obj.df_features is None) != (new_obj.df_features is None):
+                raise Violation('clone-table', '%s: table present %s / %s' % (tag, obj.df_features is not None, new_obj.df_features is not None))
+            if obj.df_features is not None:
+                ok, why = ref.frames_equal(new_obj.df_features, obj.df_features)
+                if not ok:
+                    raise Violation('clone-table', '%s: %s' % (tag, why))
+            if gen.case_key_json(_plain(new_obj.thresholds)) != gen.case_key_json(_plain(obj.thresholds)):
+                raise Violation('clone-settings', '%s: %s vs %s' % (tag, new_obj.thresholds, obj.thresholds))
+            obj = new_obj
         elif kind == 'np_thresholds':
             # the same settings stored as numpy scalars (read from an array / a parameter table)
             if model.method != 'cycles':
@@ -333,14 +351,14 @@ def st_settings(draw, band):
 def st_op(draw, band):
     kind = draw(st.sampled_from(['fit', 'fit', 'fit', 'fit', 'fit', 'fit', 'recompute', 'load', 'set_threshold', 'set_threshold',
                                  'set_burst_option', 'set_burst_option', 'switch_method', 'switch_method', 'switch_center', 'read',
-                                 'read', 'construct', 'np_thresholds', 'recompute']))
+                                 'read', 'construct', 'np_thresholds', 'recompute', 'clone']))
     if kind == 'fit' or kind == 'load':
         if kind == 'fit' and draw(st.integers(0, 3)) == 0:
             kind = 'fit_buffer'
         return [kind, draw(st.integers(0, 3))]
     if kind == 'recompute':
         return [kind, draw(st.sampled_from([None, 0, 0.05, 0.1, 0.3]))]
-    if kind == 'np_thresholds':
+    if kind == 'np_thresholds' or kind == 'clone':
         return [kind, draw(st.integers(0, 2))]
     if kind == 'set_threshold':
         return [kind, draw(st.sampled_from([0, 1, 2, 3, 4, -1, -1, -1])), draw(st.sampled_from([0.0, 0.125, 0.25, 0.5, 0.75]))]
